@@ -558,6 +558,8 @@ func runC03(c *Ctx, r *Run) {
 
 	// ---- OB-H (cont.): one message per slot - a second, different copy must not overwrite per-sender round state
 	checkFirstCopyWins(c, r, "OB-H")
+	// ---- the echo-broadcast mechanism: equivocating on a reliable broadcast is tampering too (rules of C06)
+	runC06(c, r)
 	// ---- OB-P: per-party loops of the protocols are complete
 	{
 		var fns []*ssa.Function
